@@ -50,23 +50,23 @@ type Violation struct {
 }
 
 type CaseStats struct {
-	Paths         int
-	BranchPoints  int
-	Forks         int
-	Steps         int64
-	AssertsProved int
+	Paths           int
+	BranchPoints    int
+	Forks           int
+	Steps           int64
+	AssertsProved   int
 	AssertsConcrete int
-	AssertQueries int
-	Inconclusive  []string
-	Covers        map[string]int
-	AssertSites   map[string]int
-	FuncsSym      map[string]bool
-	ModelsHit     map[string]int
-	Summaries     map[string]int
-	Samples       []map[string]any
-	Witnesses     []Witness
-	MaxPathSteps  int64
-	Wall          time.Duration
+	AssertQueries   int
+	Inconclusive    []string
+	Covers          map[string]int
+	AssertSites     map[string]int
+	FuncsSym        map[string]bool
+	ModelsHit       map[string]int
+	Summaries       map[string]int
+	Samples         []map[string]any
+	Witnesses       []Witness
+	MaxPathSteps    int64
+	Wall            time.Duration
 }
 
 type Witness struct {
@@ -175,7 +175,7 @@ func (in *Interp) branch(c *Term) bool {
 	panic(pathEnd{"infeasible"})
 }
 
-const concretizeCap = 64
+const concretizeCap = 256
 
 // concretize forks on every feasible value of t (cap 64).
 func (in *Interp) concretize(t *Term, what string) uint64 {
@@ -389,19 +389,29 @@ func (in *Interp) decideAssert(cond *Term, msg string, kind string) {
 			listedOr = in.tb.Or(listedOr, k.cond)
 		}
 	}
-	q := []*Term{neg, in.tb.Not(listedOr)}
-	if q[1] == in.tb.False || neg == in.tb.False {
+	notListed := in.tb.Not(listedOr)
+	if notListed == in.tb.False || neg == in.tb.False {
 		// whole path is inside a known region / assertion trivially true
 	} else {
-		in.cs.AssertQueries++
-		res, vals := in.checkStrong(q)
-		switch res {
-		case Sat:
-			m := NewModel(vals)
-			in.recordViolation(m, msg, kind, site, nil)
-		case Unknown:
-			in.cs.Inconclusive = append(in.cs.Inconclusive, fmt.Sprintf("assertion %q: solver unknown at %s", msg, site))
-		default:
+		// pc ∧ ¬(a1 ∧ … ∧ an) is sat iff some pc ∧ ¬ai is: decide the conjuncts
+		// separately so that independence slicing keeps each query small.
+		conj := flattenAnd(cond, 256)
+		proved := true
+		for _, c := range conj {
+			in.cs.AssertQueries++
+			res, vals := in.checkStrong([]*Term{in.tb.Not(c), notListed})
+			if res == Sat {
+				in.recordViolation(NewModel(vals), msg, kind, site, nil)
+				proved = false
+				break
+			}
+			if res == Unknown {
+				in.cs.Inconclusive = append(in.cs.Inconclusive, fmt.Sprintf("assertion %q: solver unknown at %s", msg, site))
+				proved = false
+				break
+			}
+		}
+		if proved {
 			in.cs.AssertsProved++
 		}
 	}
@@ -510,4 +520,23 @@ func (in *Interp) handlePanic(p *goPanic) {
 			in.recordViolation(NewModel(vals), msg, "panic", site, []string{k.key})
 		}
 	}
+}
+
+// flattenAnd splits a conjunction into its conjuncts (up to max pieces).
+func flattenAnd(t *Term, max int) []*Term {
+	var out []*Term
+	stack := []*Term{t}
+	for len(stack) > 0 {
+		x := stack[len(stack)-1]
+		stack = stack[:len(stack)-1]
+		if x.op == OpBAnd && len(out)+len(stack) < max {
+			stack = append(stack, x.b, x.a)
+			continue
+		}
+		if x.op == OpConst && x.val != 0 {
+			continue
+		}
+		out = append(out, x)
+	}
+	return out
 }
